@@ -386,7 +386,7 @@ class ReadModes(Job):
     functions = ["transit.Connection.recordReceived/receive_record/_deliverRecords", "Connection.connectConsumer/_writeToConsumer/disconnectConsumer",
                  "Connection.dataReceived/dataReceivedRECORDS/_decrypt_record/send_record"]
     shadows = ["transit.SecretBox (ideal AEAD, concrete ciphertexts)", "transit.log"]
-    OPS = ("feed", "feedall", "read", "attach", "attach-none", "detach")
+    OPS = ("feed", "feedall", "read", "readloop", "attach", "attach-none", "detach")
 
     def __init__(self, lens, k, direction, first):
         self.lens, self.k, self.direction, self.first = lens, k, direction, first
@@ -413,16 +413,28 @@ class ReadModes(Job):
             trace = []
             kicks = [0]
 
-            def read():
+            loops = [0]
+            escaped = []
+
+            def read(loop=False):
                 i = nreads[0]
                 nreads[0] += 1
-                rcv.receive_record().addCallbacks(lambda r, i=i: log.append(("r", i, r)), lambda f: None)
+
+                def cb(r, i=i):
+                    log.append(("r", i, r))
+                    if loop and loops[0] > 0:
+                        # a reader loop (`while True: rec = yield conn.receive_record()`): the next read is issued from inside the callback
+                        loops[0] -= 1
+                        read(loop=True)
+                rcv.receive_record().addCallbacks(cb, lambda f: None)
 
             def enabled():
                 ops = []
                 if frames:
                     ops += ["feed", "feedall"]
                 ops.append("read")
+                if not loops[0] and "readloop" not in trace:
+                    ops.append("readloop")
                 if rcv._consumer is None:
                     ops += ["attach", "attach-none"]
                 elif rcv._consumer_bytes_expected is None:
@@ -431,13 +443,20 @@ class ReadModes(Job):
 
             def do(op, j):
                 if op == "feed":
-                    rcv.dataReceived(frames.pop(0))
+                    exc = feed(rcv, [frames.pop(0)])
+                    if exc:
+                        escaped.append(exc)
                 elif op == "feedall":
                     data = b"".join(frames)
                     del frames[:]
-                    rcv.dataReceived(data)
+                    exc = feed(rcv, [data])
+                    if exc:
+                        escaped.append(exc)
                 elif op == "read":
                     read()
+                elif op == "readloop":
+                    loops[0] = len(pts)
+                    read(loop=True)
                 elif op == "attach":
                     if symbolic:
                         E = fresh_int("expected%d" % j, 0, total + 2)
@@ -458,6 +477,8 @@ class ReadModes(Job):
                     rcv.disconnectConsumer()
 
             def problems():
+                if escaped:
+                    return "%s escaped dataReceived on an honest stream" % escaped[0]
                 recs = [e[-1] for e in log]
                 if recs != pts[:len(recs)]:
                     return "deliveries over time %r are not a prefix of the records sent %r" % (recs, pts)
